@@ -50,6 +50,15 @@ CONSTANTS
                \* semantics must depend on the value the solver reads (v) only.
   Seeds,       \* SpecStep: subset of {"configured", "other"}: the initial state (psi_init, or a seed_solution whose
                \* terminal values are / are not the configured terminal_psi)
+  Hists,       \* SpecStep: history of the Device OBJECT the solver is handed: subset of {"fresh", "edited", "reset"}
+               \*   "fresh"  no terminal polygon was changed since the device was constructed
+               \*   "edited" the device was meshed and USED (terminal_info() / a solve), then a terminal polygon of the
+               \*            same object was changed in place (Polygon.translate/rotate/scale(inplace=True), points = ...)
+               \*            and the device was NOT meshed again (the mesh depends on film and holes only)
+               \*   "reset"  a terminal polygon was changed in place and nothing evaluated on the present mesh predates
+               \*            the change (changed before the first use, or the device was meshed again afterwards)
+               \* The CURRENT terminals are the polygons as they are when the solver is constructed (term); term0 is
+               \* the site set of the terminals as they were when the device was last used before the change.
   MaxSteps, MaxIter, AMax, IMax,
   \* ---- mechanism switches -------------------------------------------------
   MTrigger,    \* "prev_close": refresh iff not allclose(A_now, A_previous_step)  [pinned code]
@@ -72,9 +81,12 @@ CONSTANTS
                \* >= 2 use the product formed before the Laplacian was refreshed)
   MSkipEqual,  \* FALSE [code]: every call rebuilds / refreshes; TRUE: mutant ("already up to date" short-cut: return
                \* when the incoming array compares equal to self.link_exponents, which is a REFERENCE to the caller's array)
-  MFixFlag     \* "at_use" [code]: fix_psi = (terminal_psi is not None) is read when the solver is constructed;
+  MFixFlag,    \* "at_use" [code]: fix_psi = (terminal_psi is not None) is read when the solver is constructed;
                \* "at_construction": mutant (computed once when the options object is constructed: stale after an
                \* attribute assignment)
+  MTermInfo    \* "current" [code]: the terminal sites are evaluated from the terminal polygons whenever a solver is
+               \* constructed; "per_mesh": mutant (evaluated once per mesh and kept: stale after an in-place change of a
+               \* terminal polygon of a device that is not meshed again)
 
 -----------------------------------------------------------------------------
 (* Gaussian integers *)
@@ -85,20 +97,21 @@ Scale(k, z) == <<k * z[1], k * z[2]>>
 
 (* Mesh instances: sites 1..n, oriented edges (i, j), Laplacian weight w = dual/len, *)
 (* edge length len, cell area, terminals (sets of sites).  Orientation is mixed on   *)
-(* purpose (i > j occurs).                                                           *)
+(* purpose (i > j occurs).  term0: the sites of the terminals BEFORE an in-place     *)
+(* change of a terminal polygon (some sites stay, some leave, some enter).           *)
 InstData ==
   [ strip6 |-> [ name  |-> "strip6", n |-> 6,
                  edges |-> << <<1,2>>, <<1,3>>, <<2,3>>, <<2,4>>, <<4,3>>, <<3,5>>, <<4,5>>, <<4,6>>, <<6,5>> >>,
                  w     |-> <<2, 1, 3, 1, 2, 1, 3, 2, 1>>,
                  len   |-> <<1, 2, 1, 2, 1, 2, 1, 2, 1>>,
                  area  |-> <<2, 3, 4, 4, 3, 2>>,
-                 term  |-> {1, 2, 5, 6} ],
+                 term  |-> {1, 2, 5, 6}, term0 |-> {1, 2, 3, 4} ],
     fan5   |-> [ name  |-> "fan5", n |-> 5,
                  edges |-> << <<1,2>>, <<2,3>>, <<3,4>>, <<4,1>>, <<1,5>>, <<2,5>>, <<5,3>>, <<5,4>> >>,
                  w     |-> <<1, 2, 1, 3, 2, 1, 1, 2>>,
                  len   |-> <<2, 1, 2, 1, 1, 2, 1, 2>>,
                  area  |-> <<3, 2, 3, 2, 4>>,
-                 term  |-> {1, 3} ] ]
+                 term  |-> {1, 3}, term0 |-> {1, 2} ] ]
 
 NE(m) == Len(m.edges)
 SitesOf(m) == 1..m.n
@@ -173,7 +186,7 @@ IsIdentityRow(m, L, i) == \A j \in SitesOf(m) : L[i, j] = (IF i = j THEN <<m.are
 
 -----------------------------------------------------------------------------
 VARIABLES
-  cfg,       \* [inst, mode, scr, dyn, v, seed, form, v0]
+  cfg,       \* [inst, mode, scr, dyn, v, seed, form, v0, hist]
   built,     \* psi_gradient is not None
   lap, grad, \* the matrices currently held (scaled, dense)
   freeRows,  \* laplacian_free_rows[: 2 NE] as stored by the first build
@@ -202,14 +215,17 @@ aliasvars == <<heldBuf, heldVal, bufQ>>
 vars == <<cfg, opsvars, aliasvars, hist, stepvars>>
 
 M == InstData[cfg.inst]
-FixedSites == IF cfg.mode = "none" THEN {} ELSE M.term      \* MeshOperators.fixed_sites
+FixedSites == IF cfg.mode = "none" THEN {} ELSE M.term      \* the sites of the CURRENT terminals (property)
+\* the sites the solver takes for terminal sites (mechanism): MeshOperators.fixed_sites, psi_init, re-imposition
+MechSites == IF cfg.mode = "none" THEN {}
+             ELSE IF MTermInfo = "per_mesh" /\ cfg.hist = "edited" THEN M.term0 ELSE M.term
 FixPsi == cfg.mode # "disabled"                               \* MeshOperators.fix_psi
 Eff == IF FixPsi THEN FixedSites ELSE {}                      \* the rows that are to be pinned (property)
 \* the fix_psi flag the MeshOperators actually get (mechanism)
 OpsFixPsi == IF ~MFixPsi THEN TRUE
              ELSE IF MFixFlag = "at_construction" /\ cfg.form = "assign" THEN cfg.v0 # "none"
              ELSE FixPsi
-BuildFixed == IF OpsFixPsi THEN FixedSites ELSE {}            \* the rows the build pins (mechanism)
+BuildFixed == IF OpsFixPsi THEN MechSites ELSE {}             \* the rows the build pins (mechanism)
 
 \* the link configuration the mechanism works with (q[e] = 2/pi A.(r_j - r_i); with unit vectors it is divided by len)
 MechQ(q) == IF MUnitDirs THEN [e \in EdgesOf(M) |-> q[e] \div M.len[e]] ELSE q
@@ -250,8 +266,10 @@ LapHermitianOnFreeBlock ==      \* sanity of the transcription: area-weighted fr
 -----------------------------------------------------------------------------
 (* SpecOps: arbitrary sequences of vector potentials *)
 AllVs == {"zero", "nonzero", "none"}
-Cfgs == {c \in [inst : Insts, mode : Modes, scr : Scrs, dyn : Dyns, v : Vs, seed : Seeds, form : Forms, v0 : AllVs] :
+Cfgs == {c \in [inst : Insts, mode : Modes, scr : Scrs, dyn : Dyns, v : Vs, seed : Seeds, form : Forms, v0 : AllVs,
+                 hist : Hists] :
            /\ (c.form # "assign") => c.v0 = c.v
+           /\ (c.mode = "none") => c.hist = "fresh"          \* no terminals: nothing to change
            /\ (c.v = "none") = (c.mode = "disabled")
            /\ (c.mode = "none") => c.v = "zero"}
 
@@ -262,7 +280,7 @@ InitCommon ==
   /\ memoLap = <<>> /\ stepFresh = TRUE
 
 InitOps == /\ cfg \in [inst : Insts, mode : Modes, scr : {FALSE}, dyn : {FALSE}, v : {"zero"}, seed : {"configured"},
-                          form : {"keyword"}, v0 : {"zero"}]
+                          form : {"keyword"}, v0 : {"zero"}, hist : {"fresh"}]
            /\ InitCommon /\ pc = "ops"
 
 (* One call of set_link_exponents as the caller sees it.  With "inplace"/"view" the caller first writes the new *)
@@ -302,8 +320,10 @@ InitStep == /\ cfg \in Cfgs /\ InitCommon /\ pc = "ctor"
 Ctor ==
   /\ pc = "ctor"
   /\ Build(QOfPot(M, 0, 0))
+  \* psi_init carries the configured value on the sites the solver takes for terminal sites
   /\ tv' = IF cfg.v = "none" THEN "free"
-           ELSE IF cfg.seed = "configured" \/ FixedSites = {} THEN "eq" ELSE "seed"
+           ELSE IF cfg.seed = "configured" \/ FixedSites = {} THEN (IF MechSites = FixedSites THEN "eq" ELSE "drift")
+           ELSE "seed"
   /\ pc' = "idle"
   /\ UNCHANGED <<cfg, hist, aliasvars, step, s, curA, prevA, ind, drifted, memoLap, stepFresh>>
 
@@ -359,6 +379,7 @@ EulerValue(retried) ==
   LET path == ~retried \/ MReimposeOnRetry IN
   IF cfg.v = "none" THEN "free"
   ELSE IF FixedSites = {} THEN "eq"
+  ELSE IF MechSites # FixedSites THEN "drift"      \* some current terminal site is treated as a free site: it evolves
   ELSE IF path /\ (MReimpose = "configured" \/ (MReimpose = "nonzero" /\ cfg.v = "nonzero")) THEN "eq"
   ELSE IF path /\ MReimpose = "incoming_nonzero" /\ cfg.v = "nonzero" THEN (IF tv = "eq" THEN "eq" ELSE "drift")
   ELSE IF tv = "eq" /\ cfg.v = "zero" /\ PinnedRowsAreIdentity THEN "eq"
@@ -419,7 +440,7 @@ UnsetMeansFree == (cfg.v = "none" /\ built) => (tv = "free" /\ \A i \in SitesOf(
 NoScreeningNoInduced == ~cfg.scr => ind = 0
 
 TypeOK ==
-  /\ cfg.inst \in Insts /\ cfg.mode \in {"none", "terminals", "disabled"}
+  /\ cfg.inst \in Insts /\ cfg.mode \in {"none", "terminals", "disabled"} /\ cfg.hist \in {"fresh", "edited", "reset"}
   /\ built \in BOOLEAN /\ calls \in Nat
   /\ pc \in {"ops", "ctor", "idle", "field", "trigger", "loop", "euler", "induced", "finish", "end"}
   /\ tv \in {"unset", "eq", "drift", "free", "seed"}
@@ -433,6 +454,8 @@ DecodeI(m, q) == LET S[k \in 0..4] == IF k = 0 THEN 0 ELSE S[k - 1] + q[NE(m) - 
 Min(a, b) == IF a < b THEN a ELSE b
 ASSUME \A name \in Insts :
           LET m == InstData[name] IN
+          \* a change of a terminal polygon: some sites stay terminal sites, some leave, some enter
+          /\ m.term \cap m.term0 # {} /\ m.term \ m.term0 # {} /\ m.term0 \ m.term # {} /\ m.term0 \subseteq 1..m.n
           /\ AMax < Pow4[NE(m) - 4 + 1] /\ IMax < Pow4[5]        \* base-4 digits: unique representation
           /\ \A k \in 1..2 * NE(m) : EdgeTab[name][LinkRow(m, k), LinkCol(m, k)] = (IF k <= NE(m) THEN k ELSE NE(m) - k)
           /\ \A a \in 0..Min(AMax, 20), i \in 0..Min(IMax, 20) :
